@@ -132,6 +132,63 @@ func init() {
 		}
 		return ex.mkAddrPort(a, IntLit(int64(ap.Port())))
 	})
+	// ---- address strings (property C15): abstract grammar predicates of spec/addr.spec ----
+	const reAddrPort = `[0-9]{1,3}\.[0-9]{1,3}\.[0-9]{1,3}\.[0-9]{1,3}:[0-9]{1,5}`
+	const reAddr = `[0-9]{1,3}\.[0-9]{1,3}\.[0-9]{1,3}\.[0-9]{1,3}`
+	reg("regexp.MatchString", func(ex *Exec, st *State, instr ssa.Instruction, args []Value) Value {
+		pat, ok := ex.strLitContent(args[0].(*Term))
+		s := args[1].(*Term)
+		switch {
+		case ok && pat == reAddrPort:
+			return tuple(App("addr.m1", SBool, s), nilIface())
+		case ok && pat == reAddr:
+			return tuple(App("addr.m2", SBool, s), nilIface())
+		}
+		// a pattern without a model: arbitrary verdict (a changed pattern cannot be 'proved')
+		ex.cur.libCalls["regexp.MatchString with an unmodelled pattern (arbitrary result)"] = true
+		return tuple(ex.fresh("match", SBool), ex.maybeError(st, "regexp"))
+	})
+	reg("net/netip.ParseAddrPort", func(ex *Exec, st *State, instr ssa.Instruction, args []Value) Value {
+		s := args[0].(*Term)
+		if ex.decide(st, App("addr.isQuadPort", SBool, s)) {
+			return tuple(ex.mkAddrPort(ex.mkAddr(IntLit(1), App("addr.quadOf", SInt, s), IntLit(0), IntLit(0)), App("addr.portOf", SInt, s)), nilIface())
+		}
+		// anything else (IPv6, zones, malformed): unconstrained address or an error
+		ap := ex.symbolicValue(st, ex.lookupNamed("net/netip.AddrPort"), ex.fresh("parsed.addrport", SInt).Name, 0)
+		return tuple(ap, ex.maybeError(st, "netip.ParseAddrPort"))
+	})
+	reg("net/netip.ParseAddr", func(ex *Exec, st *State, instr ssa.Instruction, args []Value) Value {
+		s := args[0].(*Term)
+		if ex.decide(st, App("addr.isQuad", SBool, s)) {
+			return tuple(ex.mkAddr(IntLit(1), App("addr.quadOf", SInt, s), IntLit(0), IntLit(0)), nilIface())
+		}
+		a := ex.symbolicValue(st, ex.lookupNamed("net/netip.Addr"), ex.fresh("parsed.addr", SInt).Name, 0)
+		return tuple(a, ex.maybeError(st, "netip.ParseAddr"))
+	})
+	// fmt.Sprintf("%v", x) of a netip.Addr / netip.AddrPort holding an IPv4 address: its canonical text
+	sprintfModels["%v"] = func(ex *Exec, st *State, instr ssa.Instruction, args []Value) Value {
+		if len(args) != 1 {
+			return nil
+		}
+		iv, ok := args[0].(*VIface)
+		if !ok || len(iv.Alts) != 1 {
+			return nil
+		}
+		switch typeKey(iv.Alts[0].T) {
+		case "net/netip.Addr":
+			kind, bits, _, _ := addrParts(iv.Alts[0].Val)
+			r := ex.fresh("addr.text", SStr)
+			st.assume(Implies(Eq(kind, IntLit(1)), And(App("addr.isQuad", SBool, r), Eq(App("addr.quadOf", SInt, r), bits))))
+			return r
+		case "net/netip.AddrPort":
+			a, port := addrPortParts(iv.Alts[0].Val)
+			kind, bits, _, _ := addrParts(a)
+			r := ex.fresh("addrport.text", SStr)
+			st.assume(Implies(Eq(kind, IntLit(1)), And(App("addr.isQuadPort", SBool, r), Eq(App("addr.quadOf", SInt, r), bits), Eq(App("addr.portOf", SInt, r), port))))
+			return r
+		}
+		return nil
+	}
 	reg("net/netip.AddrFromSlice", func(ex *Exec, st *State, instr ssa.Instruction, args []Value) Value {
 		s := args[0].(*VSlice)
 		if ex.decide(st, Eq(s.Len, IntLit(4))) {
